@@ -108,6 +108,7 @@ func (f *fileStorage) Get(key string) ([]byte, error) {
 
 // Delete removes the file for the corresponding key.
 func (f *fileStorage) Delete(key string) error {
+	verifStoragePoint("delete:begin", f.dir())
 	return os.Remove(f.filePathToFile(key))
 }
 
